@@ -35,6 +35,22 @@ class NodeNotFoundError(Exception):
             % key)
 
 
+class CircularDependencyError(Exception):
+    """The dependencies between nodes form a cycle and cannot be ordered."""
+
+    def __init__(self, keys):
+        """Initialize the error.
+
+        Args:
+            keys (list of unicode):
+                The keys of nodes involved in (or blocked by) the cycle.
+        """
+        super(CircularDependencyError, self).__init__(
+            'The dependencies between the following cannot all be '
+            'satisfied, as they form a cycle: %s'
+            % ', '.join(sorted(keys)))
+
+
 class Node(object):
     """A node in a graph.
 
@@ -268,6 +284,10 @@ class DependencyGraph(object):
         Returns:
             list of Node:
             The list of ndoes, in dependency order.
+
+        Raises:
+            CircularDependencyError:
+                The dependencies form a cycle, so no order can satisfy them.
         """
         assert self._finalized
 
@@ -319,6 +339,24 @@ class DependencyGraph(object):
                                         reverse=True)
 
                         processed.add(node)
+
+        # A dependency cycle either leaves nodes unreachable from any leaf
+        # or gets a node placed ahead of something it depends on. Report
+        # that instead of returning an order that breaks a dependency.
+        positions = dict(
+            (node, i)
+            for i, node in enumerate(result)
+        )
+        bad_keys = [
+            node.key
+            for node in six.itervalues(self._nodes)
+            if (node not in positions or
+                any(positions.get(dep, len(result)) >= positions[node]
+                    for dep in node.dependencies))
+        ]
+
+        if bad_keys:
+            raise CircularDependencyError(bad_keys)
 
         return result
 
